@@ -323,6 +323,7 @@ func (r *runner) replay(bi int, b kit.Behaviour) bool {
 				if kit.Str(out, "err") == "" {
 					// the call completed before it saw the cancellation: not the schedule asked for
 					r.rep.AddExtra("crash_points_missed", 1)
+					r.rep.Extra("crash_point_missed_example", fmt.Sprintf("%s behaviour %d: cancelled at WAL sync %d of %d pages, the call completed", tag, bi, k, s.pages()))
 					return false
 				}
 				if kit.Str(out, "err") == "rejected" {
@@ -340,6 +341,7 @@ func (r *runner) replay(bi int, b kit.Behaviour) bool {
 					for j := si; j <= end; j++ {
 						if kit.Diff(b.Steps[j].St, proj) == "" {
 							r.rep.AddExtra("crash_points_missed", 1)
+							r.rep.Extra("crash_point_missed_example", fmt.Sprintf("%s behaviour %d: cancelled at WAL sync %d, the target holds %d pages of this attempt", tag, bi, k, j-si))
 							return false
 						}
 					}
